@@ -90,6 +90,7 @@ type KeySpec struct {
 	Int      uint64 `json:"int"`            // value for integer kinds / id for string kinds
 	Hash     uint64 `json:"hash,omitempty"` // custom hasher only
 	Conflict uint64 `json:"conf,omitempty"`
+	StrB     []byte `json:"strb,omitempty"` // string kinds: the key's bytes (nil: "k<Int>")
 }
 
 // ShouldUpdate rules.
@@ -399,6 +400,62 @@ func GenPlan(profName string, seed uint64) *Plan {
 			c.Keys[i].Int = uint64(hi) + lo
 		}
 	}
+	if stringKind(c.KeyKind) && g.p(450) {
+		// "every key set" for the string kinds: families of distinct keys that a
+		// careless hash or comparison would confuse - texts that differ only in
+		// trailing NUL bytes or in length, share a prefix up to and across the
+		// 8/16/32-byte marks, differ in one late byte of a long text, or in case
+		var fam [][]byte
+		switch g.n(5) {
+		case 0: // zero-extension aliases, short
+			stem := []byte{byte(g.rng(1, 250))}
+			if g.p(500) {
+				stem = []byte("u" + string(rune('0'+g.n(10))))
+			}
+			fam = [][]byte{{0}, {0, 0}, {0, 0, 0}, stem, append(append([]byte{}, stem...), 0), append(append([]byte{}, stem...), 0, 0), append(append([]byte{}, stem...), 0, 0, 0, 0, 0, 0)}
+		case 1: // prefixes across the word marks
+			base := []byte("abcdefghijklmnopqrstuvwxyz0123456789ABCDEFGH")
+			for _, n := range []int{7, 8, 9, 15, 16, 17, 31, 32, 33, 40} {
+				fam = append(fam, append([]byte{}, base[:n]...))
+			}
+		case 2: // long texts that differ in one late byte
+			base := make([]byte, g.pick([]int{24, 64, 100, 257}))
+			for i := range base {
+				base[i] = byte('a' + i%23)
+			}
+			for i := 0; i < 10; i++ {
+				t := append([]byte{}, base...)
+				t[len(t)-1-i%3] ^= byte(1 + i)
+				fam = append(fam, t)
+			}
+		case 3: // case, high bit, embedded NUL
+			fam = [][]byte{[]byte("Key"), []byte("key"), []byte("KEY"), []byte("ke\x00y"), []byte("key\x00"), {0xeb, 'e', 'y'}, {'k', 0xe5, 'y'}, []byte("key "), []byte(" key")}
+		default: // fixed-width binary ids of different widths
+			v := uint64(g.rng(1, 1<<20))
+			for _, w := range []int{1, 2, 3, 4, 5, 8, 9, 16} {
+				t := make([]byte, w)
+				for i := 0; i < w && i < 8; i++ {
+					t[i] = byte(v >> (8 * i))
+				}
+				fam = append(fam, t)
+			}
+		}
+		// distinct texts only, in a drawn order
+		seen := map[string]bool{}
+		var uniq [][]byte
+		for _, t := range fam {
+			if !seen[string(t)] {
+				seen[string(t)] = true
+				uniq = append(uniq, t)
+			}
+		}
+		g.r.Shuffle(len(uniq), func(i, j int) { uniq[i], uniq[j] = uniq[j], uniq[i] })
+		for i := range c.Keys {
+			if i < len(uniq) {
+				c.Keys[i].StrB = uniq[i]
+			}
+		}
+	}
 	if c.KeyKind == KeyByte {
 		// byte keys: 256 values, one shard each
 		for i := range c.Keys {
@@ -639,6 +696,67 @@ func GenPlan(profName string, seed uint64) *Plan {
 			}
 		}
 		p.Clients = append(p.Clients, prog)
+	}
+	if nclients == 1 && !mono && !p.Flags.AllFits && g.p(600) {
+		// "No overwrite raises a resident key's cost" (the histories in which C03
+		// promises RemainingCost() >= 0), without tying every key to one cost: a
+		// Set may give a key any cost when the key is known to be absent (never
+		// written, or deleted and drained by a Wait, or cleared), and otherwise
+		// no more than the smallest cost it was given since then. Mirrors
+		// Engine.noteWrite; costs still vary, zero costs included.
+		type tr struct {
+			written, del bool
+			min          int64
+		}
+		ks := make([]tr, nkeys)
+		prog := p.Clients[0]
+		for oi := range prog {
+			o := &prog[oi]
+			switch o.K {
+			case OpSet, OpSetRoom:
+				t := &ks[o.Key]
+				if t.written {
+					eff := o.Cost
+					if eff == 0 && c.CostFn {
+						eff = o.FnC
+					}
+					if o.K == OpSetRoom || eff > t.min {
+						// keep the key's smallest cost (through Config.Cost when that is what it returns)
+						*o = Op{K: OpSet, Key: o.Key, Cost: t.min, FnC: o.FnC, TTL: o.TTL}
+						if c.CostFn && t.min == o.FnC {
+							o.Cost = 0
+						} else if c.CostFn && t.min == 0 {
+							o.Cost, o.FnC = 0, 0
+						}
+						eff = t.min
+					}
+					if eff < t.min {
+						t.min = eff
+					}
+				} else if o.K == OpSet {
+					eff := o.Cost
+					if eff == 0 && c.CostFn {
+						eff = o.FnC
+					}
+					t.min = eff
+				} else {
+					t.min = 0 // room-relative cost, unknown here: anything later counts as a raise
+				}
+				t.written, t.del = true, false
+			case OpDel:
+				ks[o.Key].del = true
+			case OpWait:
+				for i := range ks {
+					if ks[i].del {
+						ks[i] = tr{}
+					}
+				}
+			case OpClear:
+				for i := range ks {
+					ks[i] = tr{}
+				}
+			}
+		}
 	}
 	if mono || p.Flags.AllFits {
 		// cost-monotone and everything-fits runs must not contain room-relative costs
